@@ -223,6 +223,12 @@ V("C04", "numpy-cdf-erfc-int-reciprocal", "fire", "C04.R8", "numpy normal_cdf po
   ("src/pyhf/tensor/numpy_backend.py", "        return norm.cdf(x, loc=mu, scale=sigma)  # type: ignore[no-any-return]", "        z = np.subtract(x, mu) * np.reciprocal(sigma)\n        return 0.5 * special.erfc(-z / np.sqrt(2))  # type: ignore[no-any-return]"))
 V("C04", "numpy-cdf-erfc-true-division", "silent", "", "numpy normal_cdf in the erfc form with a true division",
   ("src/pyhf/tensor/numpy_backend.py", "        return norm.cdf(x, loc=mu, scale=sigma)  # type: ignore[no-any-return]", "        z = np.subtract(x, mu) / sigma\n        return 0.5 * special.erfc(-z / np.sqrt(2))  # type: ignore[no-any-return]"))
+V("C01", "shared-default-settings", "fire", "C01.R14", "default modifier settings are one module-level dict handed to every configuration",
+  ("src/pyhf/pdf.py", '__all__ = ["Model", "_ModelConfig"]\n', '__all__ = ["Model", "_ModelConfig"]\n\n_DEFAULT_MODIFIER_SETTINGS = {\n    \'normsys\': {\'interpcode\': \'code4\'},\n    \'histosys\': {\'interpcode\': \'code4p\'},\n}\n'),
+  ("src/pyhf/pdf.py", "        default_modifier_settings = {\n            'normsys': {'interpcode': 'code4'},\n            'histosys': {'interpcode': 'code4p'},\n        }\n\n        self.modifier_settings = config_kwargs.pop(\n            'modifier_settings', default_modifier_settings\n        )\n", "        self.modifier_settings = config_kwargs.pop(\n            'modifier_settings', _DEFAULT_MODIFIER_SETTINGS\n        )\n"))
+V("C01", "module-default-settings-copied", "silent", "", "module-level default modifier settings, deep-copied per configuration",
+  ("src/pyhf/pdf.py", '__all__ = ["Model", "_ModelConfig"]\n', '__all__ = ["Model", "_ModelConfig"]\n\n_DEFAULT_MODIFIER_SETTINGS = {\n    \'normsys\': {\'interpcode\': \'code4\'},\n    \'histosys\': {\'interpcode\': \'code4p\'},\n}\n'),
+  ("src/pyhf/pdf.py", "        default_modifier_settings = {\n            'normsys': {'interpcode': 'code4'},\n            'histosys': {'interpcode': 'code4p'},\n        }\n\n        self.modifier_settings = config_kwargs.pop(\n            'modifier_settings', default_modifier_settings\n        )\n", "        self.modifier_settings = config_kwargs.pop('modifier_settings', None)\n        if self.modifier_settings is None:\n            self.modifier_settings = copy.deepcopy(_DEFAULT_MODIFIER_SETTINGS)\n"))
 
 # ------------------------------------------------------------------ C08
 INF = "src/pyhf/infer/__init__.py"
